@@ -2,7 +2,7 @@
 Shared by C01, C03, C04, C07, C14, C16."""
 import collections
 import json
-from harness import gen_graph, gen_proc, tlc
+from harness import gen_graph, gen_proc, gen_cc, tlc
 from harness.runner import pmap
 
 CAP_QUICK = 300
@@ -16,11 +16,13 @@ def corpus(ctx):
         fam = list(gen_graph.exhaustive_family(4, max_inc=1))
         gs += [g for i, g in enumerate(fam) if i % 3 == ctx.seed % 3]
         gs += [gen_proc.random_proc_graph(rng, nmin=4, nmax=9, max_space=60) for _ in range(350)]
+        gs += [gen_cc.theory_conn_example()] + [gen_cc.random_cc_graph(rng) for _ in range(120)]
     else:
         gs += list(gen_graph.exhaustive_family(4, max_inc=1))
         fam5 = list(gen_graph.exhaustive_family(5, max_inc=1))
         gs += [g for i, g in enumerate(fam5) if i % 6 == ctx.seed % 6]
         gs += [gen_proc.random_proc_graph(rng, nmin=4, nmax=11, max_space=150) for _ in range(4000)]
+        gs += [gen_cc.theory_conn_example()] + [gen_cc.random_cc_graph(rng, nmin=3, nmax=9) for _ in range(1500)]
     return gs
 
 
@@ -69,7 +71,7 @@ def summarise(traces, mon):
             if e['e'] == 'New' and not e['err']:
                 out['encoders'][e['enc']] += 1
         key = json.dumps([t['g'][k] for k in ('n', 'start', 'der', 'ch', 'inc', 'cons', 'cc')] +
-                         [[n['t'], n['k'], n['lo'], n['hi']] for n in t['g']['nodes'] if n['t'] != 'plain'])
+                         [[n['t'], n['k'], n['lo'], n['hi'], n['dl'], n['dmin'], n['dmax'], n['rep']] for n in t['g']['nodes'] if n['t'] != 'plain'])
         if ndec >= 4 and key not in seen:
             out['nontrivial'] += 1
         seen.add(key)
